@@ -196,6 +196,14 @@ def ent_inputs(tier, seed):
             s = "".join(t)
             if s[:1] not in ("#", ";"):
                 out.append(s)
+    # comments: every string over {<,!,-,>,a} up to a length, and random mixtures of comment pieces with entities
+    topc = 6 if tier == "quick" else 9
+    for n in range(0, topc + 1):
+        for t in itertools.product("<!->a", repeat=n):
+            out.append("".join(t))
+    cparts = ["<!--", "-->", "<", "!", "-", ">", "--", "<!", "->", "<!-", "&amp;", "&", "#", ";", "a", "b c", "&#60;!--", "<!---->", "<!--->"]
+    for _ in range(8000 if tier == "quick" else 200000):
+        out.append("".join(rng.choice(cparts) for _ in range(rng.randint(1, rng.choice([4, 8, 14])))))
     n_rand = 20000 if tier == "quick" else 400000
     for _ in range(n_rand):
         parts = [rng.choice(ENT_OTHER) for _ in range(rng.randint(1, rng.choice([3, 6, 12, 25])))]
@@ -209,6 +217,9 @@ def ent_inputs(tier, seed):
     seen = set()
     uniq = []
     for s in out:
+        # outside the sub-language: a leading '-' (horizontal rule) or list marker, a '<' followed by anything that could start a tag
+        if s[:1] in ("-", "#", ";") or re.search(r"<[^!\-><&#;]", s):
+            continue
         if s not in seen:
             seen.add(s)
             uniq.append(s)
@@ -230,6 +241,10 @@ def _eshow(canon_tokens):
             out.append("X" + codes(d["char"]))
         elif t[0] == "HTMLEntityEnd":
             out.append("Z")
+        elif t[0] == "CommentStart":
+            out.append("C")
+        elif t[0] == "CommentEnd":
+            out.append("D")
         else:
             out.append("?" + t[0])
     return " ".join(out) or "-"
@@ -262,6 +277,10 @@ def _erender(shown):
             out.append(dec(t[1:]))
         elif t == "Z":
             out.append(";")
+        elif t == "C":
+            out.append("<!--")
+        elif t == "D":
+            out.append("-->")
         else:
             return None
     return "".join(out)
@@ -277,9 +296,9 @@ def _ecanonical(shown):
     inside = False
     prev_text = False
     for t in ts:
-        if t == "A":
+        if t in ("A", "C"):
             inside, prev_text = True, False
-        elif t == "Z":
+        elif t in ("Z", "D"):
             inside, prev_text = False, False
         elif t[0] == "T" and not inside:
             if prev_text:
@@ -303,7 +322,7 @@ def run_entities(c, tier, seed, props=("roundtrip", "canon", "pyc")):
             continue
         lines = ["%d %d %s" % (flag, ms, " ".join(str(ord(ch)) for ch in s)) for s in items]
         want[which] = vlib.model_run("entfrag", lines)
-    dist = {"inputs": len(items), "with_entity": 0, "numeric": 0, "hexadecimal": 0, "ampersand_as_text": 0}
+    dist = {"inputs": len(items), "with_entity": 0, "numeric": 0, "hexadecimal": 0, "ampersand_as_text": 0, "with_comment": 0, "unterminated_comment_opener": 0}
     reported = 0
     for i, s in enumerate(items):
         row = real[i]
@@ -316,6 +335,8 @@ def run_entities(c, tier, seed, props=("roundtrip", "canon", "pyc")):
         dist["numeric"] += "N" in m
         dist["hexadecimal"] += any(t[0] == "X" for t in m)
         dist["ampersand_as_text"] += ("&" in s and m.count("A") < s.count("&"))
+        dist["with_comment"] += "C" in m
+        dist["unterminated_comment_opener"] += ("<!--" in s and "C" not in m)
         for which in want:
             got = row[which]
             if got == want[which][i] or reported >= 5:
@@ -432,6 +453,10 @@ def _mrender(shown):
             out.append(dec(t[1:]))
         elif t == "Z":
             out.append(";")
+        elif t == "C":
+            out.append("<!--")
+        elif t == "D":
+            out.append("-->")
         else:
             return None
     return "".join(out)
@@ -449,10 +474,10 @@ def _mcanonical(shown):
             if prev[-1]:
                 return False
             prev[-1] = True
-        elif t in ("A",) or t[0] == "S":
+        elif t in ("A", "C") or t[0] == "S":
             prev[-1] = False
             prev.append(False)
-        elif t in ("Z", "E"):
+        elif t in ("Z", "E", "D"):
             if len(prev) > 1:
                 prev.pop()
             prev[-1] = False
